@@ -22,6 +22,7 @@ import EsbuildModel.Impl.NumPrint
 import EsbuildModel.Impl.Slots
 import EsbuildModel.Impl.PkgExports
 import EsbuildModel.Impl.SmJoin
+import EsbuildModel.Impl.Shifts
 
 open EsbuildModel
 
@@ -51,6 +52,7 @@ def dispatch (kernel : String) (args : List String) : String :=
   | "slots" => Slots.driver args
   | "pkgexports" => PkgExports.driver args
   | "smjoin" => SmJoin.driver args
+  | "shifts" => Shifts.driver args
   | _ => "bad-kernel"
 
 partial def loop (hin hout : IO.FS.Stream) : IO Unit := do
